@@ -2,6 +2,8 @@ package verifh
 
 import (
 	"bytes"
+	"fmt"
+	"mime"
 	"strings"
 )
 
@@ -106,6 +108,10 @@ func (d *refHdr) Next() expect {
 		if strings.ContainsAny(line, "\r") {
 			unspec = "stray CR inside a header line"
 		}
+		if len(line) > 1000 {
+			// an implementation may bound the memory it spends on one header line
+			unspec = "header line of more than 1000 bytes"
+		}
 		if line == "" {
 			break
 		}
@@ -165,9 +171,10 @@ func (d *refHdr) Next() expect {
 		n = n*10 + int(c-'0')
 	}
 	if over || n > len(d.s)-d.pos {
+		part := d.s[d.pos:]
 		d.pos = len(d.s)
 		d.lost = true
-		return expect{Kind: xError, Why: "declared length exceeds what the stream holds"}
+		return expect{Kind: xError, Partial: part, Why: "declared length exceeds what the stream holds"}
 	}
 	rec := d.s[d.pos : d.pos+n]
 	d.pos += n
@@ -181,6 +188,18 @@ func (d *refHdr) Next() expect {
 		if strings.EqualFold(ct, d.mime) {
 			d.lost = true
 			return expect{Kind: xUnspec, Why: "content types differ only in case"}
+		}
+		if ct == "" {
+			d.lost = true
+			return expect{Kind: xUnspec, Why: "Content-Type field with an empty value"}
+		}
+		// "must match": the same media type written differently (white space
+		// around ';', parameter order) may or may not count as a match
+		if t1, p1, e1 := mime.ParseMediaType(ct); e1 == nil {
+			if t2, p2, e2 := mime.ParseMediaType(d.mime); e2 == nil && t1 == t2 && fmt.Sprint(p1) == fmt.Sprint(p2) {
+				d.lost = true
+				return expect{Kind: xUnspec, Why: "content types are the same media type spelt differently"}
+			}
 		}
 		return expect{Kind: xRecordErr, Rec: rec, Why: "content type does not match"}
 	}
